@@ -309,14 +309,26 @@ def convNet (k p : Nat) (bn : Bool) : Nat → List Op
   | n + 1 => [.conv k 1 p 1, .emit] ++ (if bn then [.emit] else []) ++ (if n = 0 then [] else [.emit]) ++ convNet k p bn n
 
 /-- `Conv2dGRU.forward`, one conv block per layer + output block.  `repl = true`: `ReplicationPad2d` then an unpadded
-conv; `repl = false`: the conv's own zero padding, which the code sets to `2 if idx == 0 else 1` although layer 1 is
-dilated by 2.  Block `idx`: kernel `5 if idx == 0 else 3`, dilation `2 if idx == 1 else 1`.  The recurrent state has the
-input's spatial shape (`popSame` against the remembered input at each GRU cell). -/
+conv; `repl = false`: the conv's own zero padding `2 if idx in (0, 1) else 1` (repaired; block 1 is dilated by 2).
+Block `idx`: kernel `5 if idx == 0 else 3`, dilation `2 if idx == 1 else 1`.  The recurrent state has the input's spatial
+shape (`popSame` against the remembered input at each GRU cell). -/
 def gruBlock (repl : Bool) (idx : Nat) : List Op :=
   let k := if idx = 0 then 5 else 3
   let d := if idx = 1 then 2 else 1
   if repl then [.replPad (if idx = 0 ∨ idx = 1 then 2 else 1), .conv k 1 0 d]
-  else [.conv k 1 (if idx = 0 then 2 else 1) d]
+  else [.conv k 1 (if idx = 0 ∨ idx = 1 then 2 else 1) d]
+
+/-- the zero-padded block of the pinned tree (before the repair): `padding = 2 if idx == 0 else 1`, which ignores the
+dilation of block 1 -/
+def gruBlockPinned (idx : Nat) : List Op :=
+  [.conv (if idx = 0 then 5 else 3) 1 (if idx = 0 then 2 else 1) (if idx = 1 then 2 else 1)]
+
+def gruLayersPinned : Nat → List Op
+  | 0 => []
+  | m + 1 => gruLayersPinned m ++ gruBlockPinned m ++ [.emit, .popSame, .push]
+
+/-- the pinned zero-padding cell (no instance norm) -/
+def gruPinned (layers : Nat) : List Op := [.push] ++ gruLayersPinned layers ++ gruBlockPinned layers ++ [.emit]
 
 /-- layers `0 … m−1`: block, hook, `cat` with the recurrent state (which has the input's spatial shape, remembered on
 the stack: `popSame, push` compares without forgetting), optional `InstanceNorm2d` inside the gates. -/
